@@ -24,9 +24,9 @@ type VerifC06OpEvent struct {
 	// Authorized is the account the frame's last successful AUTH set (callContext.authorized), nil if none:
 	// the account in whose name AUTHCALL calls, as opposed to the sponsor (evm.Origin) who pays the value.
 	Authorized *common.Address
-	Done     bool
-	Result   *big.Int // top of stack after the opcode returned without error (nil otherwise)
-	Err      error    // error returned by the opcode function (aborts the frame)
+	Done       bool
+	Result     *big.Int // top of stack after the opcode returned without error (nil otherwise)
+	Err        error    // error returned by the opcode function (aborts the frame)
 }
 
 // VerifC06Instrument wraps the given opcodes of evm's interpreter. Returns false when the interpreter is not
